@@ -1,7 +1,7 @@
 (* C02 — dump-then-load is the identity (v1 engine); loader generation never fails.
    Statements only (closed by `exact` / short glue) + Print Assumptions.
    Model: coq/model/V1Base.v V1Gen.v V1Errors.v V1Eval.v; proofs: coq/proofs/V1Gen*.v V1RtProofs.v *)
-From DW Require Import PyStr V1Base V1Gen V1Errors V1Eval V1GenInv V1GenSound V1GenNames V1GenTotal V1RtProofs.
+From DW Require Import PyStr V1Base V1Gen V1Errors V1Eval V1Show V1GenInv V1GenSound V1GenNames V1GenTotal V1RtProofs V1Annot V1AnnotProofs.
 From Coq Require Import ZArith List Bool.
 Import ListNotations.
 
@@ -193,3 +193,165 @@ Proof.
 Qed.
 Example C02_ex_roundtrip : run_main toy ct_ex 3 4 0 (dump toy ct_ex v_ex) = Ok v_ex.
 Proof. vm_compute. reflexivity. Qed.
+
+(* ======================================================================================================
+   (d) The annotation-resolution FRONT END (model/V1Annot.v): what a field holds after class definition
+   is a SURFACE annotation — class / alias objects, Annotated[...], Required / NotRequired / ReadOnly[...],
+   `type X = ...` aliases and strings / ForwardRefs still to be evaluated in a module namespace.
+   `resolve` transcribes get_string_for_annotation's single pass (evaluate a top-level string; strip ONE
+   Annotated or else ONE qualifier; then resolve ONE alias; dispatch) and its recursion through the
+   hooks; `walk` transcribes load_func_for_dataclass entering nested classes on a copy of extras with
+   extras['cls'] switched to the nested class.  `denotes` is the reference semantics: what the annotation
+   means whatever the nesting order of the wrappers and whichever module is current.
+   ====================================================================================================== *)
+
+(* Resolution succeeds and yields the denotation, for EVERY program, module, annotation and depth, inside
+   the decidable region okb: at every component reached (through type arguments, NamedTuple fields,
+   TypedDict keys, alias values) the wrappers are in an order the single pass handles and every string
+   is well scoped in the module that will be used.  `_partial`: outside okb the pinned code does fail on
+   annotations that denote a type (refuted below) — a second wrapper of the same phase, a qualifier
+   below Annotated, a string or a generic below a wrapper, an alias of an alias. *)
+Theorem C02_resolve_total_partial :
+  forall fuel E cur a, okb fuel E cur a = true ->
+  exists t, resolve fuel E cur a = Ok t /\ denotes E a t.
+Proof. exact resolve_total. Qed.
+Print Assumptions C02_resolve_total_partial.
+
+(* the executable reference used by the harness is sound for the relation *)
+Theorem C02_denote_sound : forall fuel E a t, denote fuel E a = Ok t -> denotes E a t.
+Proof. exact denote_denotes. Qed.
+Print Assumptions C02_denote_sound.
+
+(* A nested dataclass is resolved in ITS OWN module: whatever the root, the path by which the class is
+   reached and the depth, the entry the walk makes for a class is the resolution of its fields with the
+   strings evaluated in the class's own module (never the module of the class that was current). *)
+Theorem C02_nested_own_namespace :
+  forall rf E root ct, surface_table true rf E root = Ok ct ->
+  forall c sc, nth_error (e_cls E) c = Some sc ->
+    nth_error ct c = Some {| c_name := sc_name sc; c_fields := [] |} (* not reached from the root *) \/
+    exists d, nth_error ct c = Some d /\ resolve_class rf E (sc_mod sc) sc = Ok d.
+Proof. exact surface_table_own. Qed.
+Print Assumptions C02_nested_own_namespace.
+
+Theorem C02_walk_own_namespace :
+  forall fuel rf E x c acc acc', walk true fuel rf E x c acc = Ok acc' ->
+  Forall (own rf E) acc -> Forall (own rf E) acc'.
+Proof. exact walk_own_namespace. Qed.
+Print Assumptions C02_walk_own_namespace.
+
+(* Loader generation = resolution of the surface program + code generation.  It never fails, for any
+   number of modules, classes and any nesting, when every class of the program is inside okb in its own
+   module; the table handed to the generator is inside the generator's grammar. *)
+Theorem C02_surface_gen_total_partial :
+  forall rf E root,
+  (forall sc, In sc (e_cls E) -> class_ok rf E sc = true) -> root < List.length (e_cls E) ->
+  exists ct f g, surface_table true rf E root = Ok ct /\
+                 gen_main ct (Datatypes.S (List.length ct)) root = Ok (f, g).
+Proof. exact surface_gen_total. Qed.
+Print Assumptions C02_surface_gen_total_partial.
+
+(* ... and every class of that table denotes what was written *)
+Theorem C02_surface_class_denotes :
+  forall fuel E sc, class_ok fuel E sc = true ->
+  exists d, resolve_class fuel E (sc_mod sc) sc = Ok d /\ class_denotes E sc d.
+Proof. exact resolve_class_total. Qed.
+Print Assumptions C02_surface_class_denotes.
+
+(* the generated program of a resolved surface program equals the specification on the resolved table *)
+Theorem C02_surface_sound :
+  forall Or rf E root ct gn f g,
+  surface_table true rf E root = Ok ct ->
+  gen_main ct gn root = Ok (f, g) -> names_distinct g = true ->
+  forall n o, run_main Or ct gn n root o = load_cls Or ct n root o.
+Proof. intros Or rf E root ct gn f g _ Hg Hd. exact (C02_gen_sound Or ct gn root f g Hg Hd). Qed.
+Print Assumptions C02_surface_sound.
+
+(* ---- witnesses ------------------------------------------------------------------------------------------ *)
+Definition sI := SLeaf LInt.
+Definition sfd (n : string) (a : sann) : sfield :=
+  {| sf_name := S n; sf_ann := a; sf_default := None; sf_keys := [S n]; sf_dkey := S n |}.
+
+(* two modules.  Module 0 ("shapes"): Leaf, Tree (mutually recursive through quoted names inside generics),
+   the alias `type AL = list[int]`, TypedDict Event with `payload: NotRequired[AL]`.
+   Module 1: Forest, which nests shapes.Tree and does NOT have the names Leaf / Tree in its globals. *)
+Definition rLeaf := SRef (RData 1).
+Definition rTree := SRef (RData 2).
+Definition E_ex : senv := {|
+  e_cls := [ {| sc_name := S "Forest"; sc_mod := 1;
+                sc_fields := [sfd "label" (SLeaf LStr); sfd "roots" (SSeq KList rTree);
+                              sfd "events" (SSeq KList (SRef (RTyped 0)));
+                              sfd "note" (SAnn (SRef (RAlias 0)))] |};
+             {| sc_name := S "Leaf"; sc_mod := 0;
+                sc_fields := [sfd "payload" (SLeaf LBytes); sfd "owner" (SOpt (SStr None rTree))] |};
+             {| sc_name := S "Tree"; sc_mod := 0;
+                sc_fields := [sfd "name" (SLeaf LStr); sfd "leaves" (SSeq KList (SStr None rLeaf));
+                              sfd "children" (SSeq KList (SStr None rTree));
+                              sfd "index" (SDict None (SLeaf LStr) (SStr None rTree))] |} ];
+  e_nts := [];
+  e_tds := [ {| st_name := S "Event"; st_req := [(S "name", SLeaf LStr)];
+                st_opt := [(S "payload", SQual QNotRequired (SRef (RAlias 0)))] |} ];
+  e_als := [ {| sa_name := S "AL"; sa_value := SSeq KList sI |} ];
+  e_ns := [ [(S "Leaf", RData 1); (S "Tree", RData 2); (S "AL", RAlias 0); (S "Event", RTyped 0)];
+            [(S "Forest", RData 0)] ]
+|}.
+
+Example C02_ex_surface_in_region : forallb (class_ok 10 E_ex) (e_cls E_ex) = true.
+Proof. vm_compute. reflexivity. Qed.
+(* resolution succeeds, the generator accepts the table, names are distinct, and class Tree (module 0,
+   reached from module 1 at depth 2) got its quoted names resolved to the classes of module 0 *)
+Definition ex_surface_check : bool :=
+  match surface_table true 10 E_ex 0 with
+  | Ok ct =>
+      match gen_main ct 4 0 with Ok (f, g) => names_distinct g | Err _ => false end &&
+      match nth_error ct 2 with
+      | Some d => ftys_eqb (c_fields d)
+                    [fd "name" tS; fd "leaves" (TSeq KList (TData 1)); fd "children" (TSeq KList (TData 2));
+                     fd "index" (TDict None tS (TData 2))]
+      | None => false
+      end
+  | Err _ => false
+  end.
+Example C02_ex_surface_generates : ex_surface_check = true.
+Proof. vm_compute. reflexivity. Qed.
+
+(* what the theorem excludes, 1: were extras['cls'] NOT switched on entering the nested class (sw = false),
+   the quoted names of module 0 would be evaluated in module 1, where they are unbound *)
+Example C02_ex_stale_cls_fails :
+  surface_table false 10 E_ex 0 = Err (XBare (S "NameError")).
+Proof. vm_compute. reflexivity. Qed.
+
+(* what the theorem excludes, 2: were the alias resolved BEFORE the Annotated / qualifier step instead of
+   after it, the alias below NotRequired would reach the dispatch unresolved *)
+Definition head_alias_first (E : senv) (cur : nat) (a : sann) : result sann :=
+  do a1 <- match a with SStr pin e => ev E (pin_or pin cur) e | _ => Ok a end;
+  do a2 <- unalias E a1;
+  dispatch (strip1 a2).
+Example C02_ex_alias_first_fails :
+  head_res E_ex 1 (SQual QNotRequired (SRef (RAlias 0))) = Ok (SSeq KList sI) /\
+  head_alias_first E_ex 1 (SQual QNotRequired (SRef (RAlias 0))) = Err (XBare (S "TypeError")).
+Proof. split; reflexivity. Qed.
+
+(* Refuted outside okb: each annotation below denotes a type, every name in it is bound, and the single
+   pass of the pinned code fails on it (open finding F58; witnesses replayed on the implementation).
+   AI = `type AI = int`, AA = `type AA = AI`, AnL = `type AnL = Annotated[list[int], ...]`. *)
+Definition E_w : senv := {|
+  e_cls := []; e_nts := []; e_tds := [];
+  e_als := [ {| sa_name := S "AI"; sa_value := sI |}; {| sa_name := S "AA"; sa_value := SRef (RAlias 0) |};
+             {| sa_name := S "AnL"; sa_value := SAnn (SSeq KList sI) |} ];
+  e_ns := [ [(S "AI", RAlias 0); (S "AA", RAlias 1); (S "AnL", RAlias 2)] ] |}.
+Definition refuted_at (a : sann) : Prop :=
+  (exists t, denotes E_w a t) /\ scoped E_w 0 a = true /\ forall fuel, exists e, resolve fuel E_w 0 a = Err e.
+Theorem C02_resolve_refuted :
+  refuted_at (SAnn (SQual QNotRequired sI))                 (* Annotated[NotRequired[int], ...] *)
+  /\ refuted_at (SQual QReadOnly (SQual QRequired sI))      (* ReadOnly[Required[int]] *)
+  /\ refuted_at (SRef (RAlias 1))                           (* type AA = AI *)
+  /\ refuted_at (SQual QRequired (SStr None sI))            (* Required['int'] *)
+  /\ refuted_at (SAnn (SStr None (SRef (RAlias 0))))        (* Annotated['AI', ...] *)
+  /\ refuted_at (SQual QNotRequired (SAnn (SSeq KList sI))) (* NotRequired[Annotated[list[int], ...]] *)
+  /\ refuted_at (SRef (RAlias 2)).                          (* type AnL = Annotated[list[int], ...] *)
+Proof.
+  repeat split;
+    try (eexists; repeat (econstructor; try reflexivity); fail);
+    try (intros [|f]; eexists; reflexivity).
+Qed.
+Print Assumptions C02_resolve_refuted.
